@@ -170,8 +170,14 @@ impl LayoutSpec {
             n
         };
         if self.extras.rev_files {
+            // undo files exist next to every blk file in a real directory; some are created before
+            // and some after the blk files (the enumeration order decides which map entry would win)
             plan.extra_files.push(("rev00000.dat".into(), vec![0xaa; 100]));
             plan.extra_files.push(("rev00001.dat".into(), vec![]));
+            for (k, (n, slot)) in numbers.iter().zip(self.files.iter()).enumerate().take(6) {
+                let name = format!("rev{:0width$}.dat", n, width = slot.pad as usize);
+                if k % 2 == 0 { plan.pre_files.push((name, vec![0xab; 700])) } else { plan.extra_files.push((name, vec![0xac; 700])) }
+            }
         }
         if self.extras.unreferenced_blk {
             plan.extra_files.push((blk_name(free(7777), 5), b"not a block file at all".to_vec()));
